@@ -2215,7 +2215,22 @@ func (db *DB) CommitJournal(ctx context.Context, mode JournalMode) (err error) {
 		TraceLog.Printf("[CommitJournalPage(%s)]: pgno=%d chksum=%s %s", db.name, pgno, pageChksum, errorKeyValue(err))
 	}
 
-	// Remove all checksums after last page.
+	// Remove all checksums after last page. If the transaction cannot be
+	// published below (e.g. the primary refuses a forwarded commit) SQLite rolls
+	// it back and the pages after "commit" are part of the database again, so
+	// their checksums are put back in that case.
+	removedChksums := make(map[uint32]ltx.Checksum)
+	published := false
+	defer func() {
+		if published {
+			return
+		}
+		db.chksums.mu.Lock()
+		defer db.chksums.mu.Unlock()
+		for pgno, chksum := range removedChksums {
+			db.setDatabasePageChecksum(pgno, chksum)
+		}
+	}()
 	func() {
 		db.chksums.mu.Lock()
 		defer db.chksums.mu.Unlock()
@@ -2230,6 +2245,9 @@ func (db *DB) CommitJournal(ctx context.Context, mode JournalMode) (err error) {
 			}
 
 			pageChksum, _ := db.pageChecksum(pgno, db.PageN(), nil)
+			if chksum := db.chksums.pages[i]; chksum != 0 {
+				removedChksums[pgno] = chksum
+			}
 			db.setDatabasePageChecksum(pgno, 0)
 			TraceLog.Printf("[CommitJournalRemovePage(%s)]: pgno=%d chksum=%s %s", db.name, pgno, pageChksum, errorKeyValue(err))
 		}
@@ -2274,6 +2292,7 @@ func (db *DB) CommitJournal(ctx context.Context, mode JournalMode) (err error) {
 	} else if err := internal.Sync(filepath.Dir(ltxPath)); err != nil {
 		return fmt.Errorf("sync ltx dir: %w", err)
 	}
+	published = true
 
 	// Ensure file is persisted to disk.
 	if err := dbFile.Sync(); err != nil {
